@@ -285,6 +285,12 @@ def one(it):
             s.rebalance(wgt, k, base=1024.0, update=False)
         s.update(s.now)
         live = {k: float(c.weight) for k, c in s.children.items()}
+        if len(it) > 4 and it[4] == "pending_flow":
+            # capital flowed in earlier in the same bar and nothing was read since: the weights the
+            # algo must start from are those of the refreshed tree
+            v0 = float(s.value)
+            s.adjust(512.0)
+            live = {k: w * v0 / (v0 + 512.0) for k, w in live.items()}
         s.temp = {"weights": dict(tw)}
         A.LimitDeltas(lim)(s)
         got = as_dict(s.temp["weights"])
@@ -403,6 +409,8 @@ def cases(tier, seed):
         for tw in tws:
             for lim in (0.0, 0.125, 0.25, 0.5, 2.0, {"a": 0.125}, {"a": 0.25, "c": 0.125}):
                 out.append(("limitdeltas", held, tw, lim))
+                if held and not isinstance(lim, dict):
+                    out.append(("limitdeltas", held, tw, lim, "pending_flow"))
     for tname in tables[:2]:  # (TargetVol takes pandas' pairwise covariance: tables without gaps)
         for w in ({"a": 1.0}, {"a": 0.5, "b": 0.5}, {"a": 0.25, "b": 0.25, "c": 0.5}, {"a": 0.75, "b": -0.25}, {"c": 0.5, "a": 0.25, "b": 0.25}, {"c": 0.75, "a": 0.25}, {"b": 0.125, "a": 0.875}):
             for now_i in nows:
@@ -460,7 +468,7 @@ def run(ctx):
                 ctx.violation(dict(v, build=kind, module=MOD, case={"where": list(v["where"])}))
         ctx.add(states=tot, transitions=tot, traces_validated_against_impl=tot, evaluations=tot)
         ctx.nontrivial_count += tot
-    named = [("target", v, 0) for v in ("aligned", "sparse", "late_start", "longer")]
+    named = [("target", v, 0) for v in ("aligned", "sparse", "late_start", "longer", "intraday")]
     for kind in kinds:
         for item, (n, viols) in ctx.run(kind, MOD, "named_case", named, chunksize=1):
             ctx.add(states=1, transitions=n, traces_validated_against_impl=n, evaluations=n)
